@@ -8,6 +8,112 @@ from . import symnp
 from .core import NotEncodable
 
 
+# ---- text transport: a number formatted into text is a placeholder token that parses back to the same value -----------------
+# (contract: repr/str of a float and '%d' of an integer round-trip exactly through float()/int(); digits are not modelled)
+import re as _re
+_TOKENS = {}
+_TOKEN_RE = _re.compile(r'^@@sx(\d+)@@$')
+
+
+def make_token(value):
+    k = len(_TOKENS)
+    _TOKENS[k] = value
+    return '@@sx%d@@' % k
+
+
+def is_token(s):
+    return bool(_TOKEN_RE.match(s.strip()))
+
+
+def resolve_token(s):
+    return _TOKENS[int(_TOKEN_RE.match(s.strip()).group(1))]
+
+
+def render_number(v, integer=False):
+    from .core import Sx
+    v = symnp._ex(v)
+    if isinstance(v, Sx):
+        f = v.as_fraction()
+        if f is None:
+            return make_token(v)
+        v = f
+    if integer:
+        if v != int(v):
+            raise NotEncodable('%d of a non-integer')
+        return str(int(v))
+    return make_token(v) if not isinstance(v, int) else str(v)
+
+
+class VPath:
+    """pathlib.Path stand-in: in-memory files are read from the transport, everything else goes to the real Path."""
+
+    def __new__(cls, file, *a):
+        if isinstance(file, MemFile):
+            return object.__new__(cls)
+        import pathlib
+        return pathlib.Path(file, *a)
+
+    def __init__(self, file, *a):
+        self.file = file
+
+    def expanduser(self):
+        return self
+
+    def read_text(self, *a, **k):
+        if self.file.text is None:
+            raise NotEncodable('read_text of a binary in-memory file')
+        return self.file.text
+
+    def read_bytes(self):
+        return self.file.getvalue()
+
+
+def savetxt(fname, X, fmt='%.18e', delimiter=' ', newline='\n', header='', footer='', comments='# '):
+    if not isinstance(fname, MemFile):
+        raise NotEncodable('savetxt to a real file')
+    if fmt != '%d':
+        raise NotEncodable('savetxt with fmt %r' % (fmt,))
+    X = _np.asarray(X, dtype=object)
+    if X.ndim == 1:
+        X = X.reshape(-1, 1)
+    out = []
+    if header:
+        out.append(comments + header.replace('\n', '\n' + comments))
+    for row in X:
+        out.append(delimiter.join(render_number(v, integer=True) if not _is_sym(v) else make_token(v) for v in row))
+    fname.text = newline.join(out) + newline
+
+
+def _is_sym(v):
+    from .core import Sx
+    return isinstance(v, Sx) and v.as_fraction() is None
+
+
+def fromstring(string, dtype=float, count=-1, sep=''):
+    if sep == '':
+        raise NotEncodable('binary fromstring')
+    toks = string.replace(sep, ' ').split() if sep.strip() else string.split()
+    vals = []
+    for t in toks:
+        if is_token(t):
+            vals.append(symnp._ex(resolve_token(t)))
+        else:
+            try:
+                vals.append(int(t))
+            except ValueError:
+                from fractions import Fraction
+                try:
+                    vals.append(Fraction(t))
+                except ValueError:
+                    break        # numpy stops at the first unparsable token (deprecated behaviour)
+    if not vals:
+        return symnp.zeros(0)
+    out = _np.empty(len(vals), dtype=object)
+    for i, v in enumerate(vals):
+        out[i] = v
+    return out.view(symnp.SymArray)
+
+
 class SymBytes(bytes):
     """A byte string whose [start, start+4n) region stands for n big-endian int32 values kept symbolically (payload).
     The real bytes in that region are zeros and must not be interpreted."""
@@ -58,6 +164,7 @@ class MemFile:
     def __init__(self):
         self.chunks = []
         self.closed = False
+        self.text = None        # text files (savetxt / read_text): a str with placeholder tokens
 
     def write(self, b):
         if isinstance(b, SymBytes):
@@ -77,6 +184,9 @@ class MemFile:
 
     def truncated(self, nbytes):
         t = MemFile()
+        if self.text is not None:
+            t.text = self.text[:nbytes]
+            return t
         t.chunks = [self.getvalue()[:nbytes]]
         return t
 
